@@ -21,6 +21,8 @@ type pathAbort struct {
 	msg  string
 }
 
+type engineErr string
+
 type goPanicV struct {
 	val   Value
 	msg   string
@@ -51,6 +53,7 @@ type frame struct {
 	visits    map[*ssa.BasicBlock]int
 	initTop   bool
 	phiOverride map[*ssa.Phi]Value
+	curInstr  ssa.Instruction
 }
 
 type Interp struct {
@@ -424,6 +427,16 @@ func (in *Interp) callSSA(fn *ssa.Function, args []Value, env []Value, initTop b
 		r := recover()
 		gp, ok := r.(*goPanicV)
 		if !ok {
+			// engine-level error: annotate once with the SSA location for diagnosis
+			if _, isAbort := r.(*pathAbort); !isAbort {
+				if _, done := r.(engineErr); !done {
+					where := fn.String()
+					if fr.curInstr != nil {
+						where += " @ " + fr.curInstr.String() + " (" + fn.Prog.Fset.Position(fr.curInstr.Pos()).String() + ")"
+					}
+					r = engineErr(fmt.Sprintf("%v [in %s]", r, where))
+				}
+			}
 			panic(r)
 		}
 		// Go-level panic unwinding through this frame
@@ -504,6 +517,7 @@ func (fr *frame) runBlock() {
 		if in.initMode > 0 && !fr.initTop && in.steps > in.initLimit {
 			in.abort("budget", "package-init budget exceeded (initialiser left as poison)")
 		}
+		fr.curInstr = instr
 		if fr.initTop {
 			fr.execTolerant(instr)
 		} else {
